@@ -71,7 +71,7 @@ func parseArchInto(ret *Arch, arch string) error {
 	/* May be in the following form:
 	 * `any` (implicitly any-any-any)
 	 * kfreebsd-any (implicitly any-kfreebsd-any)
-	 * kfreebsd-amd64 (implicitly any-kfreebsd-any)
+	 * kfreebsd-amd64 (implicitly gnu-kfreebsd-amd64)
 	 * bsd-openbsd-i386 */
 	flavors := strings.SplitN(arch, "-", 3)
 	switch len(flavors) {
@@ -92,10 +92,14 @@ func parseArchInto(ret *Arch, arch string) error {
 		}
 	case 2:
 		/* Right, this is something like kfreebsd-amd64, which is implicitly
-		 * gnu-kfreebsd-amd64 */
-		ret.ABI = "any"
+		 * gnu-kfreebsd-amd64; the wildcards kfreebsd-any and any-amd64
+		 * leave the ABI open as well */
+		ret.ABI = "gnu"
 		ret.OS = flavors[0]
 		ret.CPU = flavors[1]
+		if ret.OS == "any" || ret.CPU == "any" {
+			ret.ABI = "any"
+		}
 	case 3:
 		/* This is something like bsd-openbsd-amd64 */
 		ret.ABI = flavors[0]
